@@ -25,6 +25,8 @@ STUB = ["table MDP behind msdm's model interface (harness spec)", "random.Random
         "reference fold of the published update rules"]
 ASSUMPTIONS = ["workloads are proper MDPs with <= 6 non-absorbing states (4%: 10-20)", "softmax temperatures 0, 1e-3, 0.01, 1, 5, 100 (with |r|<=2 and discount<=0.9 when > 0)",
                "policy clause checked with the Q-table's own entries (constant or callable initial Q)"]
+from sim.models import SEAM_RANGES  # noqa: E402
+ASSUMPTIONS = ASSUMPTIONS + [SEAM_RANGES]
 
 LEARNERS = ('QLearning', 'SARSA', 'ExpectedSARSA', 'DoubleQLearning')
 
